@@ -754,7 +754,7 @@ class Gen:
     if k == 1:
       return mk("desc", {}, ["a description"], ns="http://www.w3.org/ns/ttml#metadata")
     if k == 2:
-      return mk("note", {"kind": "editorial"}, ["not content ", mk("span", {}, ["nor this"]), " nor that"], ns="http://example.com/foreign")
+      return mk("note", {"kind": "editorial"}, ["not content ", mk("em", {}, ["nor this"], ns="http://example.com/foreign"), " nor that"], ns="http://example.com/foreign")
     return mk("metadata", {q(XML, "id"): self.nid()})
 
   def inline_content(self, seq, depth):
